@@ -87,7 +87,10 @@ class Specs:
             kids = [self.spec(x, r, variants) for x in t[1]]
             if variants and kids and r.random() < 0.4:
                 try:
-                    anns = {f"f{i}": abi.Field[c.annotation_type()] for i, c in enumerate(kids)}
+                    # field names in a random order: classes of one process share names at different positions
+                    names = [f"f{i}" for i in range(len(kids))]
+                    r.shuffle(names)
+                    anns = {nm: abi.Field[c.annotation_type()] for nm, c in zip(names, kids)}
                     self.n += 1
                     cls = type(f"C07NT{self.n}", (abi.NamedTuple,), {"__annotations__": anns})
                     return cls().type_spec()
@@ -237,7 +240,7 @@ def build_program(pt, abi, specs: Specs, t, vseed, probes, backend):
         kind, i = p.steps[j]
         if kind == "t":
             if p.named[j] and isinstance(cur, abi.NamedTuple):
-                elem = getattr(cur, f"f{i}")
+                elem = getattr(cur, list(type(cur).__annotations__)[i])      # the name of the field at position i
             else:
                 elem = cur[i]
         elif kind == "c":
@@ -295,6 +298,8 @@ def compile_program(pt, abi, specs, t, vseed, probes, backend, version):
         return "builderr", str(e)[:300]
     except own as e:
         return "builderr", f"{type(e).__name__}: {e}"[:300]
+    except Exception as e:  # noqa: BLE001 - the library itself crashed while the access was built (not one of its own errors)
+        return "builderr", f"crash {type(e).__name__}: {e}"[:300]
 
 
 def base_ctx(version, args):
